@@ -3,7 +3,7 @@
 The 11 analytic colliders of mjCOLLISIONFUNC (plane-{sphere,capsule,cylinder,box}, sphere-{sphere,capsule,cylinder,
 box}, capsule-{capsule,box}, box-box), each in its own two-body model (both geom orders), 2 size sets, margin in
 {0,.05} x gap in {0,.02} (given per geom, so the pair value is the documented sum), and a relative pose lattice:
-5x5x5 positions scaled to the sizes x 10 rotations x 2 placements of the first geom (identity / generic world pose).
+5x5x5 positions scaled to the sizes x 12 rotations x 2 placements of the first geom (identity / generic world pose).
 Bodies are moved by writing qpos, then mj_kinematics + mj_collision (no recompilation per pose).
 Every contact: unit normal, orthonormal frame with the normal first, dist <= margin+gap, includemargin/exclude as
 documented.  Analytic part: a contact exists iff the closed-form signed distance is below margin+gap; the smallest
@@ -69,6 +69,7 @@ ROTS = [
     ("x45", axq((1, 0, 0), 45)), ("y45", axq((0, 1, 0), 45)), ("z45", axq((0, 0, 1), 45)),
     ("x90z45", quat_mul(axq((1, 0, 0), 90), axq((0, 0, 1), 45))),
     ("generic", nq((0.8, 0.2, -0.4, 0.4))), ("tilt3", axq((1, 1, 0), 3)),
+    ("generic_inv", nq((0.8, -0.2, 0.4, -0.4))), ("tilt3n", axq((-1, 0.5, 0), 3)),
 ]
 T1S = [("id", np.zeros(3), np.array([1.0, 0, 0, 0])), ("generic", np.array([0.3, -0.2, 0.4]), nq((0.7, -0.1, 0.5, 0.3)))]
 
@@ -134,7 +135,39 @@ K_BOXFACE = ("box-box: face-preferring tie-breaks (edge bias, 8deg/5% face subst
              "manifold whose deepest dist / normal differ from the true penetration depth (by design up to 5%)")
 
 
-def root_cause(gA, gB, dtrue, kind="contact"):
+def boxface_excused(obs, dtrue):
+    """True if a box-box answer deviates from the true signed distance only in the ways the collider's documented design
+    allows: the contact normal is one of the 15 candidate axes whose support gap is within 5% of the optimum, and the
+    deepest reported point is the support gap along that axis, unless the deepest incident vertices are legitimately
+    clipped away (they lie outside the reference face rectangle)."""
+    if not obs["n"]:
+        return False
+    g0, g1, nrm, dmin = obs["g0"], obs["g1"], obs["normal"], obs["dmin"]
+    gg = G.gap(g0, g1, nrm)
+    if gg < dtrue - (0.05 + 1e-6) * abs(dtrue) - 1e-12:
+        return False
+    tol = 1e-9 * (1 + abs(dtrue))
+    if dmin < gg - tol:
+        return False
+    if abs(dmin - gg) <= tol:
+        return True
+    # face axis whose deepest incident vertex is clipped by the reference rectangle?
+    for ref, inc, sgn in ((g0, g1, 1.0), (g1, g0, -1.0)):
+        loc = ref[3].T @ (sgn * nrm)
+        a = int(np.argmax(np.abs(loc)))
+        if abs(loc[a]) < 1 - 1e-9:
+            continue
+        V = (G.box_vertices(inc[1], inc[2], inc[3]) - ref[2]) @ ref[3]      # incident vertices in the reference frame
+        h = np.sign(loc[a]) * V[:, a]
+        deep = h <= h.min() + 1e-9
+        lat = [k for k in range(3) if k != a]
+        outside = np.any(np.abs(V[:, lat]) > np.asarray(ref[1][:3])[lat] + 1e-9, axis=1)
+        if np.all(outside[deep]):
+            return True
+    return False
+
+
+def root_cause(gA, gB, dtrue, kind="contact", obs=None):
     """Map a failing analytic check to a known root cause (None = unclassified)."""
     tA, tB = gA[0], gB[0]
     if (tA, tB) == (B, B):
@@ -145,8 +178,7 @@ def root_cause(gA, gB, dtrue, kind="contact"):
         if dtrue > 0:
             if G.sat_separation_boxbox(gA, gB) < dtrue - 1e-9:
                 return K_BOXSAT
-        face = max(max(G.gap(gA, gB, sgn * Rm[:, k]) for sgn in (1, -1) for k in range(3)) for Rm in (gA[3], gB[3]))
-        return K_BOXFACE if face >= dtrue - (0.05 + 1e-6) * abs(dtrue) - 1e-12 else None
+        return K_BOXFACE if obs is not None and boxface_excused(obs, dtrue) else None
     if (tA, tB) in ((S, C), (S, Y), (C, C)):
         rsum = gA[1][0] + gB[1][0]
         if (tA, tB) == (C, C):
@@ -178,8 +210,10 @@ def check_pose(lib, part, m, d, info, gA, gB, ida, idb, margin, gap_, label, xml
     rp = {"xml": xml, "qpos": qpos, "pose": label, "true_distance": dtrue, "margin": margin, "gap": gap_}
     geoms = {ida: gA, idb: gB}
 
+    obs = {"n": 0}
+
     def bad(key, what, extra=None, analytic=False, kind="contact"):
-        rc = root_cause(gA, gB, dtrue, kind) if analytic else None
+        rc = root_cause(gA, gB, dtrue, kind, obs) if analytic else None
         part.violation(rc or "%s: %s" % (pname, key), "%s: %s [%s] %s" % (pname, key, label, what), dict(rp, **(extra or {})))
 
     # ---- universal checks on every contact
@@ -198,6 +232,10 @@ def check_pose(lib, part, m, d, info, gA, gB, ida, idb, margin, gap_, label, xml
             bad("exclude flag != (dist >= margin)", "dist=%.17g margin=%.17g exclude=%d" % (c["dist"], margin, c["exclude"]))
         if set(int(x) for x in c["geom"]) != {ida, idb}:
             bad("contact between wrong geoms", "geom=%s" % c["geom"])
+    if n:
+        k0 = int(np.argmin(con["dist"]))
+        obs.update(n=int(n), dmin=float(con["dist"][k0]), normal=np.array(con[k0]["frame"][:3]),
+                   g0=geoms[int(con[k0]["geom"][0])], g1=geoms[int(con[k0]["geom"][1])])
     # ---- existence
     if abs(dtrue - thr) < 1e-9:
         part.add("boundary_excluded")
@@ -260,18 +298,36 @@ def check_pose(lib, part, m, d, info, gA, gB, ida, idb, margin, gap_, label, xml
             part.add("nonunique_witness")
     want = min(dtrue, DM)
     if abs(d12 - want) > gt:
-        bad("mj_geomDistance != true signed distance", "geomDistance=%.17g true=%.17g" % (d12, want), analytic=True, kind="geomdist")
+        degenerate = False
+        if ccd and np.linalg.norm(gA[2] - gB[2]) > 1e-12:
+            # GJK/EPA: is it a measure-zero degeneracy (cured by a 1e-7 shift of the second body)?
+            adr = 7 if (m.nq == 14 and np.allclose(qpos[7:10], gB[2])) else 0
+            q2 = np.array(qpos)
+            q2[adr:adr + 3] += 1e-7 * np.array([1.0, 2.0, -1.0])
+            d.qpos[:] = q2
+            lib.mj_kinematics(m, d)
+            gB2 = (gB[0], gB[1], q2[adr:adr + 3].copy(), gB[3])
+            dd2 = lib.mj_geomDistance(m, d, ida, idb, DM, None)
+            degenerate = abs(dd2 - min(G.pair_distance(gA, gB2), DM)) <= gt
+            d.qpos[:] = qpos
+            lib.mj_kinematics(m, d)
+        if degenerate:
+            part.violation(G.K_EPADEG, "%s: mj_geomDistance != true signed distance [%s] geomDistance=%.17g true=%.17g" % (pname, label, d12, want), rp)
+        else:
+            bad("mj_geomDistance != true signed distance", "geomDistance=%.17g true=%.17g" % (d12, want), analytic=True, kind="geomdist")
     if n and abs(d12 - float(con["dist"].min())) > gt and abs(float(con["dist"].min()) - dtrue) <= TOL * (1 + abs(dtrue)):
         bad("mj_geomDistance != smallest contact dist", "geomDistance=%.17g contact=%.17g" % (d12, float(con["dist"].min())), analytic=True, kind="geomdist")
     if dtrue < DM - 1e-6:
-        a, b = ft[:3], ft[3:]
-        sa = G.sdf(gA[0], gA[1], gA[2], gA[3], a) if True else 0
-        sb = G.sdf(gB[0], gB[1], gB[2], gB[3], b)
         wt = 1e-5 if ccd else 1e-7
-        if abs(sa) > wt or abs(sb) > wt or abs(np.linalg.norm(b - a) - abs(d12)) > wt:
-            bad("mj_geomDistance fromto is not a witness segment from geom1's surface to geom2's surface",
-                "fromto=%s sdf1(from)=%.3g sdf2(to)=%.3g |to-from|=%.17g dist=%.17g" % (ft, sa, sb, np.linalg.norm(b - a), d12), analytic=True,
-                kind="witness" if (abs(np.linalg.norm(b - a) - abs(d12)) <= wt and abs(d12 - want) <= gt) else "geomdist")
+        for (first, second, fto, dd, name) in ((gA, gB, ft, d12, "(g1,g2)"), (gB, gA, ft2, d21, "(g2,g1)")):
+            a, b = fto[:3], fto[3:]
+            sa = G.sdf(first[0], first[1], first[2], first[3], a)
+            sb = G.sdf(second[0], second[1], second[2], second[3], b)
+            ln = np.linalg.norm(b - a)
+            if abs(sa) > wt or abs(sb) > wt or abs(ln - abs(dd)) > wt:
+                bad("mj_geomDistance fromto is not a witness segment from the first argument's surface to the second's",
+                    "call %s fromto=%s sdf_first(from)=%.3g sdf_second(to)=%.3g |to-from|=%.17g dist=%.17g" % (name, fto, sa, sb, ln, dd),
+                    analytic=True, kind="witness" if (abs(ln - abs(dd)) <= wt and abs(dd - want) <= gt) else "geomdist")
 
 
 def run_model(lib, part, item):
@@ -382,13 +438,13 @@ def run(ctx):
                                 continue
                             t1 = [0, 1]
                             # split rotations over two work items for load balance
-                            items.append((pair, si, order, mi, gi, t1, pv, allrot[:5]))
-                            items.append((pair, si, order, mi, gi, t1, pv, allrot[5:]))
+                            items.append((pair, si, order, mi, gi, t1, pv, allrot[:6]))
+                            items.append((pair, si, order, mi, gi, t1, pv, allrot[6:]))
     core.pmap(ctx, _chunk, items, nchunks=min(len(items), 128))
     ctx.extra["models"] = len(items)
     ctx.rule = ("11 analytic pairs x 2 size sets x 2 geom orders x margin {0,.05 (=.02+.03)} x gap {0,.02} (per geom; thorough also via "
-                "<contact><pair>) x first-geom placement {identity, generic} x 10 relative rotations {id, 90deg x/y/z, 45deg x/y/z, "
-                "x90*z45, generic, 3deg tilt} x 5x5x5 relative positions (levels {-2,-1,0,.87,1.93} x 0.515 x (extent1+support2) per axis; "
+                "<contact><pair>) x first-geom placement {identity, generic} x 12 relative rotations {id, 90deg x/y/z, 45deg x/y/z, "
+                "x90*z45, generic and its inverse, two 3deg tilts} x 5x5x5 relative positions (levels {-2,-1,0,.87,1.93} x 0.515 x (extent1+support2) per axis; "
                 "plane pairs: 5 heights x 5 in-plane offsets).  non-trivial = the closed-form distance is below margin+gap (contact expected)")
     ctx.assumptions = ["pair margin/gap = sum of the geoms' values (doc: computation/index.rst 'margin and gap')",
                        "tolerance 1e-9*(1+|d|) for primitive colliders; 1e-6 for mj_geomDistance(box,box) (GJK/EPA, ccd_tolerance 1e-8)",
